@@ -370,8 +370,8 @@ theorem step_proj (sl : RemKind → Bool → Bool) (acq : Nat → Nat) (s : USta
     (s.step sl acq op).dbClosed = (s.core sl op).dbClosed ∧ (s.step sl acq op).removals = (s.core sl op).removals ∧
     (s.step sl acq op).bootDown = (s.core sl op).bootDown ∧ (s.step sl acq op).circuits = (s.core sl op).circuits ∧
     (s.step sl acq op).relays = (s.core sl op).relays ∧
-    ((s.core sl op).tmDown = true → (s.step sl acq op).openExit = (s.core sl op).openExit ∧
-                                     (s.step sl acq op).exits = (s.core sl op).exits) := by
+    ((s.core sl op).canAcquire = false → (s.step sl acq op).openExit = (s.core sl op).openExit ∧
+                                          (s.step sl acq op).exits = (s.core sl op).exits) := by
   unfold UState.step
   simp only
   split
@@ -389,31 +389,47 @@ theorem core_tmDown_mono (sl : RemKind → Bool → Bool) (s : UState) (op : UOp
   | clearEndpointRef => simp only [UState.core]; split <;> exact h
   | _ => simp [UState.core, h]
 
-/-- `run script` = `run (afterTm script)` from some state in which the task manager is down and the frame still holds -/
-theorem run_afterTm (sl : RemKind → Bool → Bool) (acq : Nat → Nat) (I : UState → Prop)
-    (hI : ∀ s op, I s → I (s.step sl acq op)) :
-    ∀ (script : List UOp) (s : UState), I s → UOp.tmShutdown ∈ script →
-      ∃ s₁, I s₁ ∧ s₁.tmDown = true ∧ s.run sl acq script = s₁.run sl acq (afterTm script) := by
+theorem lists_false_of_absent {o : Lid} {r : Reg} (h : Absent o r) : r.lists o = false := by
+  unfold Reg.lists
+  have h1 : r.listeners.contains o = false := by simpa using h.1
+  have h2 : r.pmap.any (fun e => e.2.contains o) = false := by
+    apply Bool.eq_false_iff.mpr
+    intro hc
+    rcases List.any_eq_true.mp hc with ⟨e, he, hm⟩
+    exact h.2 e he (by simpa using hm)
+  rw [h1, h2]; rfl
+
+/-- the script splits into a prefix that contains every closing statement and the suffix after the last of them -/
+theorem afterClosing_split : ∀ (script : List UOp), script.any UOp.isClosing = true →
+    ∃ pre, script = pre ++ afterClosing script ∧ ∀ op ∈ script, op.isClosing = true → op ∈ pre := by
   intro script
   induction script with
-  | nil => intro s _ h; cases h
+  | nil => intro h; simp at h
   | cons op rest ih =>
-    intro s hi hm
-    by_cases hop : op = UOp.tmShutdown
-    · subst hop
-      refine ⟨s.step sl acq .tmShutdown, hI s _ hi, ?_, ?_⟩
-      · rw [(step_proj sl acq s .tmShutdown).2.2.2.2.1]; rfl
-      · simp [UState.run, afterTm]
-    · have hm' : UOp.tmShutdown ∈ rest := by
-        rcases List.mem_cons.mp hm with h | h
-        · exact absurd h.symm hop
+    intro h
+    by_cases hr : rest.any UOp.isClosing = true
+    · obtain ⟨pre, hpre, hall⟩ := ih hr
+      refine ⟨op :: pre, ?_, ?_⟩
+      · simp only [afterClosing, hr, if_true, List.cons_append]; rw [← hpre]
+      · intro x hx hc
+        rcases List.mem_cons.mp hx with rfl | hx
+        · exact List.mem_cons_self
+        · exact List.mem_cons_of_mem _ (hall x hx hc)
+    · have hop : op.isClosing = true := by
+        simp only [List.any_cons, Bool.or_eq_true] at h
+        rcases h with h | h
         · exact h
-      obtain ⟨s₁, h1, h2, h3⟩ := ih (s.step sl acq op) (hI s op hi) hm'
-      refine ⟨s₁, h1, h2, ?_⟩
-      simp only [UState.run, List.foldl_cons, afterTm, hop, if_false] at h3 ⊢
-      exact h3
+        · exact absurd h hr
+      refine ⟨[op], ?_, ?_⟩
+      · simp [afterClosing, hr, hop]
+      · intro x hx hc
+        rcases List.mem_cons.mp hx with rfl | hx
+        · exact List.mem_cons_self
+        · exfalso; exact hr (List.any_eq_true.mpr ⟨x, hx, hc⟩)
 
-
+theorem run_append (sl : RemKind → Bool → Bool) (acq : Nat → Nat) (s : UState) (a b : List UOp) :
+    s.run sl acq (a ++ b) = (s.run sl acq a).run sl acq b := by
+  simp [UState.run, List.foldl_append]
 
 /-- `shutdownFrom` differs from `shutdownOp` only in the list of tasks the coroutine waits for -/
 theorem shutdownFrom_fields (tm : TM) (n : Nat) :
